@@ -550,6 +550,31 @@ def _selector_identity(prog, b, l):
     return None
 
 
+def _solver_used_again(prog, b, s, solves):
+    """can the SAT solver object of solve call s make another SAT call: s runs in a loop the solver outlives, another solve site on it is
+    reachable without passing its creation, or the object is shared (handed to a function / a maximal-extension computer)"""
+    from .provenance import _solver_creations
+
+    cr = _solver_creations(prog, b, s.node["args"][0])
+    sites = [x[2] for x in cr if x[0] == "site" and x[1] is b]
+    if not sites or len(sites) != len(cr):
+        return True  # created elsewhere / passed in: assume shared
+    loops = dict(b.loops())
+    for c in sites:
+        for h in b.in_loop(s.bb):
+            if c.bb not in loops[h]:
+                return True
+        for o in solves:
+            if o.bb != s.bb and b.reaches(s.bb, o.bb, avoid={c.bb}):
+                return True
+        # shared: a clone of the Rc handle is passed on
+        for x in b.calls():
+            if callee_matches(callee_of(x), r"rc::Rc::clone$|Clone::clone$") and x.node["args"]:
+                if any(o2.kind == "call" and o2.site is not None and o2.site.bb == c.bb for o2 in origins(b, x.node["args"][0])):
+                    return True
+    return False
+
+
 def rule_local_selector_retired(ctx):
     prog = ctx.prog
     r = ctx.rule(
@@ -579,6 +604,77 @@ def rule_local_selector_retired(ctx):
                 continue
             n += 1
             for l, ident in local:
+                # the selector guards something: a clause added before the call carries its negation
+                guarded = False
+                for a in adds:
+                    if a.bb == s.bb or not b.reaches(a.bb, s.bb):
+                        continue
+                    cl = tags.literals_of(prog, b, a.node["args"][1], set())
+                    if len(cl) > 1 and any(x.pos is False and _selector_identity(prog, b, x) == ident for x in cl):
+                        guarded = True
+                if ident[0] == "site" and not guarded and not _solver_used_again(prog, b, s, solves):
+                    r.ok("%s|solve#%d|guard" % (b.id, k), "the query clause is unguarded, but the solver object makes no other SAT call (created for this call only)", s.loc())
+                elif ident[0] == "site":
+                    r.check(guarded, "%s|solve#%d" % (b.id, k), "selector-guards-nothing", "the clause stating the query carries the negated selector", "a selector is created and assumed for this SAT call, but no clause added before the call carries its negation: the query clause is unguarded and stays in the solver for every later call", s.loc())
                 ret = [a for a, u, uid in units if uid == ident and b.reaches(s.bb, a.bb)]
                 r.check(bool(ret), "%s|solve#%d" % (b.id, k), "selector-not-retired", "the selector assumed for this call is retired after it", "the selector assumed for this SAT call is never retired: the query clause it guards can be switched on again by a later selector with the same number", s.loc())
     r.floor(n, 1, "SAT calls under a locally created selector")
+
+
+def rule_state_machine(ctx):
+    prog = ctx.prog
+    r = ctx.rule(
+        "search-state-transitions",
+        "MaximalExtensionComputer: after a *satisfiable* SAT call the state is Intermediate (a set was found; nothing says it is maximal); "
+        "after an unsatisfiable call the state is Maximal when the call tried to enlarge the current set (assumptions produced by the installed "
+        "increase function) and None when it was a fresh search (only the negated selector assumed); the found set and its model are stored in "
+        "the satisfiable arm only",
+    )
+    st = prog.adt("solvers::maximal_extension_computer::MaximalExtensionComputerState")
+    if not r.require_anchor(st, "MaximalExtensionComputerState"):
+        return
+    from ..flow import on_some_arm, on_none_arm
+
+    n = 0
+    for b in sorted(prog.lib_bodies(), key=lambda x: x.id):
+        if b.kind == "closure" or not b.impl or b.impl.get("self_adt") != MEC:
+            continue
+        solves = [s for s in b.calls() if prog.body_for_callee(callee_of(s), b) is not None and any(callee_matches(callee_of(x), SOLVE) for x in prog.body_for_callee(callee_of(s), b).calls()) and prog.body_for_callee(callee_of(s), b).impl and prog.body_for_callee(callee_of(s), b).impl.get("self_adt") == MEC]
+        for s in solves:
+            res = s.node["dst"]["l"]
+            # was it an enlarging search? the assumptions come from an indirect call (the installed function)
+            lits = tags.literals_of(prog, b, s.node["args"][1], set())
+            enlarging = any(l.role == "UNKNOWN" and "indirect" in str(l.note) for l in lits)
+            fresh = any(l.role == "SEL" and l.pos is False for l in lits) and not enlarging
+            if not (enlarging or fresh):
+                continue
+            n += 1
+            for st_site in b.sites():
+                nd = st_site.node
+                if st_site.si is None or nd["k"] != "assign" or not nd["dst"]["p"] or nd["dst"]["l"] != 1:
+                    continue
+                variants = set()
+                if nd["rv"]["k"] == "aggregate" and nd["rv"]["agg"].get("path") == st["path"]:
+                    variants.add(nd["rv"]["agg"].get("variant"))
+                elif nd["rv"]["k"] == "use":
+                    for o in origins(b, nd["rv"]["ops"][0], transparent=()):
+                        if o.kind == "agg" and o.data.get("path") == st["path"]:
+                            variants.add(o.data.get("variant"))
+                if not variants or not b.reaches(s.bb, st_site.bb):
+                    continue
+                some = none = False
+                for c in conditions(b, st_site.bb):
+                    if not c.is_discr:
+                        continue
+                    roots, _, _ = data_deps(b, c.place, through_calls=False)
+                    if res in roots or c.place["l"] == res:
+                        some = some or on_some_arm(c)
+                        none = none or on_none_arm(c)
+                anchor = "%s|%s" % (b.id, "enlarge" if enlarging else "fresh")
+                for v in sorted(variants):
+                    if some:
+                        r.check(v == "Intermediate", anchor + "|sat", "state-after-sat:%s" % v, "satisfiable => Intermediate", "after a satisfiable SAT call the computer reports %s: a set that was merely found is taken for %s" % (v, "a maximal one" if v == "Maximal" else v), st_site.loc())
+                    elif none:
+                        want = "Maximal" if enlarging else "None"
+                        r.check(v == want, anchor + "|unsat", "state-after-unsat:%s" % v, "unsatisfiable => %s" % want, "after an unsatisfiable %s the computer reports %s instead of %s" % ("attempt to enlarge the current set" if enlarging else "fresh search", v, want), st_site.loc())
+    r.floor(n, 2, "SAT calls of the maximal-extension computer with a state transition")
